@@ -17,7 +17,7 @@ ASSUMPTIONS = [
 ]
 GATES = [
     "mon.C01.invariant", "outcome.returned", "outcome.TreeError", "outcome.LoopError", "outcome.TypeError", "outcome.Injected",
-    "outcome.RecursionError", "move.between_trees", "histories", "mon.C01.insitu_invariant", "insitu.tests_run",
+    "outcome.RecursionError", "move.between_trees", "histories", "mon.C01.insitu_invariant", "insitu.tests_run", "mon.C01.assertion_switch", "C01.env_unset", "C01.env_1",
 ] + ["faulted." + k for k in (
     "pre_detach", "post_detach", "pre_attach", "post_attach", "pre_detach_children", "post_detach_children",
     "pre_attach_children", "post_attach_children")]
@@ -28,7 +28,29 @@ def plan(tier, seed, jobs):
     return E.plan_shards(tier, seed, jobs, both_modes=True)
 
 
+def config_monitor(ctx):
+    """'Both settings of the internal-assertion switch (ANYTREE_ASSERTIONS off, the default, and on)': the switch the
+    library runs with is the one the environment of this worker asks for."""
+    import os
+
+    try:
+        from anytree import config
+    except ImportError:
+        return
+    got = getattr(config, "ASSERTIONS", None)
+    if got is None:
+        return  # the switch lives elsewhere in this tree: nothing to compare
+    ctx.count("mon.C01.assertion_switch")
+    env = os.environ.get("ANYTREE_ASSERTIONS")
+    ctx.count("C01.env_%s" % ("unset" if env is None else env))
+    want = env == "1"
+    if bool(got) != want:
+        ctx.violation("C01/assertion-switch/%s" % ("unset" if env is None else env), "configuration", {"ANYTREE_ASSERTIONS": env},
+                      expected="internal assertions %s" % ("on" if want else "off (the default)"), observed="anytree.config.ASSERTIONS = %r" % (got,))
+
+
 def run(ctx):
+    config_monitor(ctx)
     E.Engine(ctx, MONITORS, faults=True).run()
     if ctx.shard == 0:
         import sys
